@@ -1,10 +1,11 @@
 #!/bin/sh
-# ./seedtest.sh <seed-id> <PROP>... : run checks against /repo + seeded/<id>/patch.diff in a scratch worktree
+# ./seedtest.sh <id> <PROP>... : run checks against /repo + seeded/<id>/patch.diff (a breaking change) or
+# refactors/<id>/patch.diff (a behaviour-preserving refactoring) in a scratch worktree
 set -e
 id=$1; shift
 wt=/var/tmp/seedrun-$id-$$
 git -C /repo worktree add -q --detach $wt HEAD
-git -C $wt apply /verif/seeded/$id/patch.diff
+if [ -f /verif/seeded/$id/patch.diff ]; then git -C $wt apply /verif/seeded/$id/patch.diff; else git -C $wt apply /verif/refactors/$id/patch.diff; fi
 out=/var/tmp/seedrun-$id-$$-out; mkdir -p $out
 set +e
 VERIF_REPO=$wt VERIF_EVIDENCE_DIR=$out VERIF_REPLAY_DIR=$out /verif/check "$@" > $out/log 2>&1
